@@ -22,7 +22,7 @@ from .c01 import shape_sig
 
 PROP = 'C13'
 LEVEL = 'exploration'
-N = {'quick': 40000, 'thorough': 1200000}
+N = {'quick': 36000, 'thorough': 1200000}
 RULE = ('seeded worlds whose numeric channels carry NI_Scale graphs of depth 1-4 over Linear / Polynomial / Table / '
         'Add / Subtract with arbitrary input-source wiring (several scales may read the raw data), with or without '
         'NI_Number_Of_Scales and explicit input sources, placed on channel / group / root, optional '
